@@ -409,13 +409,16 @@ class Crate:
 
 
 class Facts:
-    def __init__(self, directory):
+    def __init__(self, directory, text_filter=None):
         self.dir = directory
         self.crates = {}
         for fn in sorted(os.listdir(directory)):
             if fn.endswith(".json"):
                 with open(os.path.join(directory, fn)) as f:
-                    j = json.load(f)
+                    if text_filter is None:
+                        j = json.load(f)
+                    else:
+                        j = json.loads(text_filter(f.read()))
                 self.crates[j["crate"]] = Crate(j)
         self.by_dp = {}
         self.adts = {}
